@@ -29,6 +29,19 @@ static DEQUEUED: std::sync::Mutex<Vec<u64>> = std::sync::Mutex::new(Vec::new());
 static ORDER: AtomicU64 = AtomicU64::new(0);
 static CONFIRMED: std::sync::Mutex<Vec<(u64, u64, u64, u8)>> = std::sync::Mutex::new(Vec::new());
 
+/// while set, subscription history reads park between batches (hook K3)
+static HOLD_SUBS: AtomicBool = AtomicBool::new(false);
+static SUBS_HELD: AtomicU64 = AtomicU64::new(0);
+
+pub fn hold_subscriptions(on: bool) {
+    HOLD_SUBS.store(on, Ordering::SeqCst);
+}
+
+/// how often a subscription has been found parked between two history batches
+pub fn subscriptions_held() -> u64 {
+    SUBS_HELD.load(Ordering::SeqCst)
+}
+
 pub fn next_order() -> u64 {
     ORDER.fetch_add(1, Ordering::SeqCst)
 }
@@ -71,6 +84,8 @@ pub fn rebaseline() {
 }
 
 pub fn reset_activity() {
+    HOLD_SUBS.store(false, Ordering::SeqCst);
+    SUBS_HELD.store(0, Ordering::SeqCst);
     ORDER.store(0, Ordering::SeqCst);
     CONFIRMED.lock().unwrap().clear();
     SENT.store(0, Ordering::SeqCst);
@@ -107,6 +122,10 @@ impl Sim for ClusterSim {
                 CONFIRMED.lock().unwrap().push((o, a, b & !0xff, (b & 0xff) as u8));
             }
             _ => {}
+        }
+        if site == "sub:history:batch" && HOLD_SUBS.load(Ordering::SeqCst) {
+            SUBS_HELD.fetch_add(1, Ordering::SeqCst);
+            return Action::Yield;
         }
         if site.starts_with("confirm:") || site.starts_with("cluster:") || site.starts_with("sub:") {
             let cb = HOOK.with(|h| h.borrow_mut().take());
